@@ -283,6 +283,14 @@ func (t *terminal) SendMouseRaw(btn MouseBtn, press bool, mods MouseFlag, x, y i
 			btnByte |= byte(MRelease)
 		}
 
+		// like xterm, limit coordinates to what a two-byte UTF-8 sequence can carry
+		if 32+x > 0x7ff {
+			x = 0x7ff - 32
+		}
+		if 32+y > 0x7ff {
+			y = 0x7ff - 32
+		}
+
 		_, err := t.Write([]byte("\033[M" + string(32+btnByte) + string(rune(32+x)) + string(rune(32+y))))
 		return err
 
